@@ -491,8 +491,23 @@ def r10d(ck, prog):
         raise AnalysisBroken("R10d slot: store to msa->nsip[c] not found")
 
 
+def r10g(ck, prog):
+    """a node is handed to its parent only when its merge, including the weaving of the new gaps into every member row, is
+    complete: every omp task in the functions reachable from create_msa_tree is joined by a taskwait before the spawning
+    function continues with a call, a shared store or its return (the clause R02a decides for all tasks, here for the
+    merge recursion: an unjoined weaving or merging task lets the parent insert its gaps into rows the child has not
+    finished, which re-opens the child's sub-alignment)"""
+    from ..callgraph import CallGraph
+    from . import c02
+    fns = CallGraph(prog).reachable(["create_msa_tree"])
+    if "do_align" not in fns or "make_seq" not in fns:
+        raise AnalysisBroken("R10g: do_align / make_seq are not reachable from create_msa_tree")
+    c02.r02a(ck, prog, only=fns, rule="R10g", floor=2 if prog.config.startswith("omp") else 0)
+
+
 def run(ck, progs):
     describe(ck)
+    ck.rule("R10g", "every omp task under create_msa_tree (child merges, gap weaving) is joined before the spawning function calls, stores shared data or returns: a parent never merges a group whose own merge is still running")
     for cfg, prog in progs.items():
         ck.attempt(r10a, ck, prog)
         ck.attempt(r10b, ck, prog)
@@ -501,6 +516,7 @@ def run(ck, progs):
         ck.attempt(r10e, ck, prog)
         from . import c01
         ck.borrow(c01.r01i, prog, "R10f", ("R01i",))
+        ck.attempt(r10g, ck, prog)
     return ("Effect summary of create_msa_tree on msa (which paths under msa->sequences are written while aligning); "
             "all uses of msa_seq.gaps in the functions reachable from create_msa_tree; form of every store in update_gaps "
             "and into make_seq's vectors; argument agreement, loop coverage and vector immutability of the update_gaps "
